@@ -268,7 +268,8 @@ fn do_op(st: &mut State, op: &Value) -> Value {
             let names: Vec<String> = op["names"].as_array().unwrap().iter().map(|p| p.as_str().unwrap().to_string()).collect();
             let r = st.calc.add_dynamic_type_item(op["name"].as_str().unwrap(), op["index"].as_u64().unwrap() as usize,
                 op["format"].as_str().unwrap(), parse, op["up"].as_str().unwrap(), op["down"].as_str().unwrap(), names,
-                op.get("digits").and_then(|v| v.as_u64()).map(|v| v as u8), None, None);
+                op.get("digits").and_then(|v| v.as_u64()).map(|v| v as u8),
+                op.get("rounding").and_then(|v| v.as_bool()), op.get("remove_zero").and_then(|v| v.as_bool()));
             json!({"ret": r})
         }
         "date_rule" => {
